@@ -140,7 +140,7 @@ def _replay(ob):
 
     from ujvc.z3env import REPO_SRC
 
-    p = subprocess.run(["/venv/bin/python", "-c", RENDER_SCRIPT], env=dict(os.environ, PYTHONPATH=REPO_SRC), capture_output=True, text=True, timeout=300)
+    p = __import__('ujvc.units', fromlist=['run_native_p']).run_native_p(["/venv/bin/python", "-c", RENDER_SCRIPT], env=dict(os.environ, PYTHONPATH=REPO_SRC), timeout=300)
     return {"reproduced": p.returncode == 1, "detail": (p.stdout + p.stderr)[-2000:], "script": RENDER_SCRIPT}
 
 
